@@ -3,6 +3,7 @@
 package p2prig
 
 import (
+	"encoding/binary"
 	"fmt"
 	"net"
 	"sync"
@@ -94,6 +95,8 @@ type Node struct {
 	// scripting knobs
 	DisconnectAtMsg   int  // close the FIRST connection when its n-th message arrives (0 = never)
 	LoseFirstN        int  // DisconnectAtMsg / CloseAfterVersion apply to the first n connections instead of the first only (0 = 1)
+	UnknownFirst      bool // right after the handshake the node sends a message with a command the service does not know (real nodes do)
+	PushOnHandshake   bool // the unsolicited pushes (PushAfterReply, PushSeq) go out as soon as the handshake is complete instead of after the first getheaders answer
 	VersionTwice      bool // on the first connection(s) the node answers the service's version with its own version message twice (and no verack)
 	CloseAfterVersion bool // the FIRST connection is lost in the middle of the handshake: the node sends its version message and never a verack
 	IgnoreStop        bool // getheaders answers do not end at the stop hash ("all that remain or at most Cap")
@@ -125,24 +128,25 @@ type Node struct {
 
 // Conn is one live connection between the service and a node.
 type Conn struct {
-	ID         int
-	node       *Node
-	c          net.Conn
-	wmu        sync.Mutex
-	dialed     bool // node dialed the service (inbound from the service's point of view)
-	msgsIn     int32
-	sendHdrs   int32 // service asked for headers announcements
-	verackSeen int32
-	versionIn  int32
-	dead       int32
-	pushed     int32
-	peerKnown  int32 // highest height of the node's chain the service is known to have
-	lastStart  int32 // range of the last getheaders answer (read loop only)
-	lastEnd    int32
-	pongs      chan uint64
-	hdrReplies chan *wire.MsgHeaders // headers messages received from the service (the node asked with getheaders)
-	handshake  chan struct{}
-	hsOnce     sync.Once
+	ID          int
+	node        *Node
+	c           net.Conn
+	wmu         sync.Mutex
+	dialed      bool // node dialed the service (inbound from the service's point of view)
+	msgsIn      int32
+	sendHdrs    int32 // service asked for headers announcements
+	verackSeen  int32
+	unknownSent int32
+	versionIn   int32
+	dead        int32
+	pushed      int32
+	peerKnown   int32 // highest height of the node's chain the service is known to have
+	lastStart   int32 // range of the last getheaders answer (read loop only)
+	lastEnd     int32
+	pongs       chan uint64
+	hdrReplies  chan *wire.MsgHeaders // headers messages received from the service (the node asked with getheaders)
+	handshake   chan struct{}
+	hsOnce      sync.Once
 }
 
 // NewNode creates a node serving the given chain (headers from height 1).
@@ -463,11 +467,17 @@ func (c *Conn) loop() {
 			}
 			if c.dialed && atomic.LoadInt32(&c.verackSeen) == 1 {
 				c.hsOnce.Do(func() { close(c.handshake) })
+				if !c.afterHandshake() {
+					return
+				}
 			}
 		case *wire.MsgVerAck:
 			atomic.StoreInt32(&c.verackSeen, 1)
 			if atomic.LoadInt32(&c.versionIn) == 1 {
 				c.hsOnce.Do(func() { close(c.handshake) })
+				if !c.afterHandshake() {
+					return
+				}
 			}
 		case *wire.MsgPing:
 			if err := c.write(wire.NewMsgPong(m.Nonce), ""); err != nil {
@@ -515,23 +525,8 @@ func (c *Conn) loop() {
 				c.Close(fmt.Sprintf("scripted disconnect right after the reply that contains height %d", n.DropAfterHeight))
 				return
 			}
-			n.mu.Lock()
-			push, pinfo := n.PushAfterReply, n.PushInfo
-			n.mu.Unlock()
-			n.mu.Lock()
-			seq, seqInfo := n.PushSeq, n.PushSeqInfo
-			n.mu.Unlock()
-			if (push != nil || len(seq) > 0) && atomic.CompareAndSwapInt32(&c.pushed, 0, 1) {
-				if push != nil {
-					if err := c.write(push, pinfo); err != nil {
-						return
-					}
-				}
-				for i, m := range seq {
-					if err := c.write(m, seqInfo[i]); err != nil {
-						return
-					}
-				}
+			if !c.pushNow() {
+				return
 			}
 		default:
 			// getaddr, addr, protoconf, inv, headers, … : nothing to do
@@ -578,6 +573,58 @@ func (c *Conn) answerGetHeaders(m *wire.MsgGetHeaders) error {
 		atomic.StoreInt32(&c.peerKnown, end)
 	}
 	return c.write(reply, fmt.Sprintf("%d headers %d..%d%s", len(reply.Headers), start+1, end, marked))
+}
+
+// pushNow sends the node's unsolicited headers messages on this connection (once per connection).
+func (c *Conn) pushNow() bool {
+	n := c.node
+	n.mu.Lock()
+	push, pinfo := n.PushAfterReply, n.PushInfo
+	seq, seqInfo := n.PushSeq, n.PushSeqInfo
+	n.mu.Unlock()
+	if (push != nil || len(seq) > 0) && atomic.CompareAndSwapInt32(&c.pushed, 0, 1) {
+		if push != nil {
+			if err := c.write(push, pinfo); err != nil {
+				return false
+			}
+		}
+		for i, m := range seq {
+			if err := c.write(m, seqInfo[i]); err != nil {
+				return false
+			}
+		}
+	}
+	return true
+}
+
+// afterHandshake: what a node scripted to speak first does once the handshake is complete.
+func (c *Conn) afterHandshake() bool {
+	n := c.node
+	n.mu.Lock()
+	unknown, early := n.UnknownFirst, n.PushOnHandshake
+	n.mu.Unlock()
+	if unknown && atomic.CompareAndSwapInt32(&c.unknownSent, 0, 1) {
+		// a frame with a correct header and checksum and a command this service has no message type for
+		payload := []byte{0, 1, 0, 0, 0, 0, 0, 0, 0}
+		var hdr [24]byte
+		binary.LittleEndian.PutUint32(hdr[0:4], uint32(n.Net))
+		copy(hdr[4:16], "sendcmpct")
+		binary.LittleEndian.PutUint32(hdr[16:20], uint32(len(payload)))
+		sum := chainhash.DoubleHashB(payload)
+		copy(hdr[20:24], sum[:4])
+		c.wmu.Lock()
+		_ = c.c.SetWriteDeadline(time.Now().Add(20 * time.Second))
+		_, err := c.c.Write(append(hdr[:], payload...))
+		c.wmu.Unlock()
+		if err != nil {
+			return false
+		}
+		n.Log.add(Event{Node: n.Name, Conn: c.ID, Dir: "out", Cmd: "sendcmpct", Info: "a command unknown to the service"})
+	}
+	if early {
+		return c.pushNow()
+	}
+	return true
 }
 
 // WireHeader converts a model header to the wire type.
